@@ -74,7 +74,10 @@ def op_prefixes(task):
         bounds = token_boundaries(text)
         if not bounds:
             continue
-        picks = set(rnd.sample(bounds, min(per_file, len(bounds))))
+        if task.get("every"):
+            picks = set(bounds[::task["every"]])
+        else:
+            picks = set(rnd.sample(bounds, min(per_file, len(bounds))))
         picks |= {b for b in bounds if b > 0 and text[b - 1] == "\n"} if task.get("line_ends") else set()
         for b in sorted(picks):
             for variant in (text[:b], text[:b].rstrip("\n")):
